@@ -260,42 +260,60 @@ def run(prog, rep):
     # getters
     for gname, kind in (("p_ini_file_parameter_int", "int"), ("p_ini_file_parameter_double", "double"),
                         ("p_ini_file_parameter_boolean", "boolean"), ("p_ini_file_parameter_list", "list"), ("p_ini_file_parameter_string", "string")):
-        g = u.fn(gname, raw=True).inlined(skip=("pp_ini_file_find_parameter",))
-        fc = [c for (b, i, c) in g.calls() if c.get("callee") == "pp_ini_file_find_parameter"]
-        okg, msg = len(fc) == 1, "the getter does not look the key up exactly once"
+        # the getter with its lookup helper inlined, whatever the helper's signature is (returns the copy, or a boolean plus an
+        # out-parameter): the copy is what p_strdup makes of a stored `->value`
+        g = u.fn(gname)
+        dup = [n for (b, i, n) in g.nodes(elsewhere=True) if n["k"] == "asg" and strip_casts(n["l"]) is not None and strip_casts(n["l"])["k"] == "ref"
+               and strip_casts(n["r"]) is not None and strip_casts(n["r"])["k"] == "call" and strip_casts(n["r"]).get("callee") == "p_strdup"
+               and strip_casts(strip_casts(n["r"])["args"][0]) is not None and strip_casts(strip_casts(n["r"])["args"][0])["k"] == "member"
+               and strip_casts(strip_casts(n["r"])["args"][0])["field"] == "value"]
+        okg, msg = len(dup) == 1, "the getter does not copy the stored value exactly once"
         rets = []
-        VAL = var_assigned_from(g, "pp_ini_file_find_parameter") or "val"
+        H = g.copies_of(strip_casts(dup[0]["l"])["name"]) if dup else set()
+        gvals = {}
+        for b, i, n in g.nodes(elsewhere=True):
+            if n["k"] == "asg" and strip_casts(n["l"]) is not None and strip_casts(n["l"])["k"] == "ref":
+                gvals.setdefault(strip_casts(n["l"])["name"], []).append(cv(n["r"]))
+        dparam = g.param_names()[3] if len(g.param_names()) > 3 else None
+        retvars = set(strip_casts(r_.get("e"))["name"] for (b, i, r_) in g.returns() if strip_casts(r_.get("e")) is not None and strip_casts(r_.get("e"))["k"] == "ref")
+        KEEP = tuple(sorted(H | retvars | (g.copies_of(dparam) if dparam else set()) |
+                            set(v for v, vals in gvals.items() if all(x is not None for x in vals) or (v.startswith("__ret_") and any(x is not None for x in vals)))))
 
-        def gs(st, b, i, stmt, rets=rets):
-            facts, freed = st
+        def gs(st, b, i, stmt, rets=rets, dup=dup, H=H, KEEP=KEEP):
+            facts, have, freed = st
+            for n in walk(stmt):
+                if dup and n is dup[0]:
+                    have = True
             for c in calls(stmt):
-                if c.get("callee") == "p_free" and root_var(c["args"][0]) == VAL:
+                if c.get("callee") == "p_free" and root_var(c["args"][0]) in H:
                     freed = True
             if stmt["k"] == "ret":
-                rets.append((facts, freed, stmt))
-            return [(guards.transfer(facts, stmt), freed)]
+                rets.append((facts, have, freed, stmt))
+            return [(restrict(guards.transfer(facts, stmt), KEEP), have, freed)]
 
-        def ge(st, b, to, on):
+        def ge(st, b, to, on, KEEP=KEEP):
             f2 = guards.edge_assume(st[0], b, on)
-            return None if f2 is None else (restrict(f2, (VAL,)), st[1])
-        Flow(g, [(guards.EMPTY, False)], gs, ge).run()
+            return None if f2 is None else (restrict(f2, KEEP),) + st[1:]
+        Flow(g, [(guards.EMPTY, False, False)], gs, ge, max_states=40000).run()
         dparam = g.param_names()[3] if len(g.param_names()) > 3 else None
-        for (facts, freed, r) in rets:
-            missing = guards.lookup(facts, VAL) == 0
+        defaults = g.copies_of(dparam) if dparam else set()
+        for (facts, have, freed, r) in rets:
+            missing = (not have) or any(guards.lookup(facts, h) == 0 for h in H)
+            e = strip_casts(r.get("e"))
             if missing:
-                e = strip_casts(r.get("e"))
                 if kind == "list":
-                    if cv(r.get("e")) != 0:
+                    if cv(r.get("e")) != 0 and not (e is not None and e["k"] == "ref" and guards.lookup(facts, e["name"]) == 0):
                         okg, msg = False, "line %d: a missing key does not yield NULL" % line(r)
                 elif kind == "string":
-                    if not (e is not None and e["k"] == "call" and e.get("callee") == "p_strdup" and root_var(e["args"][0]) == dparam):
+                    if not (e is not None and e["k"] == "call" and e.get("callee") == "p_strdup" and root_var(e["args"][0]) == dparam) and not (
+                            e is not None and e["k"] == "ref" and any(fop == "=:" and fk == e["name"] and str(fv).startswith("p_strdup(%s" % dparam) for (fk, fop, fv) in facts)):
                         okg, msg = False, "line %d: a missing key does not yield a copy of the default" % line(r)
-                elif not (e is not None and e["k"] == "ref" and e["name"] == dparam):
+                elif not (e is not None and e["k"] == "ref" and (e["name"] == dparam or any(fop == "=:" and fk == e["name"] and fv == dparam for (fk, fop, fv) in facts))):
                     okg, msg = False, "line %d: a missing key returns %s, not the default value" % (line(r), show(r.get("e")))
             else:
                 if kind != "string" and not freed:
                     okg, msg = False, "line %d: the looked-up copy of the value is not released on this path" % line(r)
-                if kind == "string" and (strip_casts(r.get("e")) or {}).get("name") != VAL:
+                if kind == "string" and not (e is not None and e["k"] == "ref" and e["name"] in H):
                     okg, msg = False, "line %d: the string getter does not return the looked-up copy" % line(r)
         rep.ob("C16.3", g, "getter", okg, "default on a missing key; the looked-up copy is released on every other path" if okg else msg, g.loc[0])
     rep.floor("C16.3", 7)
@@ -329,7 +347,8 @@ def run(prog, rep):
             t_out, t_in = u.types[n["t"]], u.type_of(inner)
             if not t_out or not t_in or not t_out.get("w") or not t_in.get("w"):
                 continue
-            if t_out["w"] < t_in["w"] or (t_in.get("k") == "float" and t_out.get("k") == "int"):
+            rt = u.types[fn.d["ret"]]          # narrowing to the getter's own result type is the conversion itself (strtol -> pint)
+            if (t_out["w"] < t_in["w"] and t_out["w"] < (rt.get("w") or 0)) or (t_in.get("k") == "float" and t_out.get("k") == "int" and rt.get("k") == "float"):
                 return (n, t_in.get("s"), t_out.get("s"))
         return None
     if oki:
